@@ -9,6 +9,7 @@ CONSTANTS
   InitSeq <- I_Many
   InitPatterns <- IP_Many
   SolidInits <- SI_Many
+  GuessShifts = {1, 3}
   GridProblems <- NoProblems
   GridStates <- NoStates
   MaxChain = 0
